@@ -201,8 +201,17 @@ func (m *Mesh) AddNode(id string) *netceptor.Netceptor {
 
 // Connect joins two nodes with a link of the given cost (both sides configure the same cost).
 func (m *Mesh) Connect(a, b string, cost float64) (*Link, error) {
+	return m.ConnectPrepared(a, b, cost, nil)
+}
+
+// ConnectPrepared is Connect with a hook that sees the link before either node gets its session (to
+// install taps or fault filters that must already act on the very first message).
+func (m *Mesh) ConnectPrepared(a, b string, cost float64, prep func(*Link)) (*Link, error) {
 	ea, eb := NewPipePair(4096)
 	l := &Link{A: a, B: b, Cost: cost, EndA: ea, EndB: eb}
+	if prep != nil {
+		prep(l)
+	}
 	if err := m.Nodes[a].AddBackend(&OneShotBackend{Sess: ea}, netceptor.BackendConnectionCost(cost)); err != nil {
 		return nil, err
 	}
